@@ -38,9 +38,51 @@ def cut(repo):
     return cond.replace("self.response", "response"), stmts.replace("self.response", "response"), item.line
 
 
+def cut_count_parens(repo):
+    src = Source(os.path.join(repo, "patronus/src/smt/parser.rs"))
+    item = src.find_fn("count_parens")
+    return item.sig.replace("pub(crate) ", "pub ") + " " + item.body, item.line
+
+
+PARENS_HARNESS = """
+    // count_parens is how read_response decides that a reply is complete (it reads another line while the count is > 0).  The
+    // solver's reply is complete when its parentheses are balanced OUTSIDE string literals and quoted symbols: a parenthesis quoted
+    // in an error message is not structure.  For every text of N characters over the alphabet ( ) " | x blank whose literals are
+    // closed, count_parens must therefore be the balance of the structural parentheses.
+    fn parens_check<const N: usize>() {
+        let k: [u8; N] = kani::any();
+        let mut bytes: Vec<u8> = Vec::with_capacity(N);
+        let mut balance: i64 = 0;
+        let mut in_string = false;
+        let mut in_symbol = false;
+        let mut i = 0;
+        while i < N {
+            kani::assume(k[i] < 6);
+            let c = match k[i] { 0 => b'(', 1 => b')', 2 => b'"', 3 => b'|', 4 => b'x', _ => b' ' };
+            bytes.push(c);
+            if in_string { if c == b'"' { in_string = false; } }
+            else if in_symbol { if c == b'|' { in_symbol = false; } }
+            else if c == b'"' { in_string = true; }
+            else if c == b'|' { in_symbol = true; }
+            else if c == b'(' { balance += 1; }
+            else if c == b')' { balance -= 1; }
+            i += 1;
+        }
+        kani::assume(!in_string && !in_symbol);
+        kani::cover!(N < 3 || balance != 0);
+        let text = unsafe { String::from_utf8_unchecked(bytes) };
+        assert!(count_parens(&text) == balance, "count_parens counts only structural parentheses");
+    }
+"""
+
+
 def gen(repo, max_len):
     cond, stmts, line = cut(repo)
+    cp_text, cp_line = cut_count_parens(repo)
     out = [f"""#![allow(unused)]
+// cut verbatim from patronus/src/smt/parser.rs (line {cp_line})
+{cp_text}
+""", f"""
 // guard and extraction statements cut verbatim from patronus/src/smt/solver.rs (read_response, line {line})
 pub fn is_error_reply(response: &String) -> bool {{
     {cond}
@@ -75,7 +117,11 @@ mod harness {{
         while i < N {{ assert!(mb[i] == m[i]); i += 1; }}
     }}
 """]
+    out.append(PARENS_HARNESS)
     names = []
+    for n in (1, 3, 5):
+        names.append(f"count_parens_len{n}")
+        out.append(f"    #[kani::proof] #[kani::unwind({n + 3})] fn count_parens_len{n}() {{ parens_check::<{n}>(); }}\n")
     for n in range(0, max_len + 1):
         names.append(f"error_message_len{n}")
         out.append(f"    #[kani::proof] #[kani::unwind({n + 14})] fn error_message_len{n}() {{ check::<{n}>(); }}\n")
